@@ -148,6 +148,26 @@ fn main() {
 			};
 			h.go(&sys, &Limits::depth(if thorough { 9 } else { 8 }).wall_secs(120), true);
 		}
+		// tiny units (2^-60 / 2^-40): every recurrence is homogeneous of degree 1, guards written as
+		// `!= 0` / `> 0` must not act as absolute thresholds
+		{
+			let t = (2.0f64).powi(if IS_F32 { -40 } else { -60 }) as ValueType;
+			let sys = MSys {
+				name: format!("{name}/depth/tiny-units"),
+				spec: spec(name),
+				params: [2usize, 3, 4].iter().map(|n| Params::N(*n as PeriodType)).collect(),
+				v0s: vals(&[0.0, t]),
+				alphabet: vals(&[0.0, t, -3.0 * t, 2.0 * t]),
+				mk_ref: mk_ref(name),
+				shape: Shape::Free,
+				span: span2,
+				keyed: false,
+				positions: None,
+				check_peek: true,
+				extra: None,
+			};
+			h.go(&sys, &Limits::depth(if thorough { 8 } else { 6 }).wall_secs(120), true);
+		}
 		let sys = Flat(MSys {
 			name: format!("{name}/deviation/n=1..={maxn}"),
 			spec: spec(name),
